@@ -642,3 +642,6 @@ PROPS["C04"]["jobs"] += [
     {"name": "handler-monitors-over-timers", "engine": "timers", "prop": "C03", "mode": "random", "args": {"n": T(20000, 500000), "maxops": T(60, 80)}},
     {"name": "handler-monitors-over-resolver", "engine": "resolver", "prop": "C14", "mode": "random", "args": {"n": T(20000, 300000)}},
 ]
+
+PROPS["C11"]["jobs"].append({"name": "binding-epochs-over-udp-traffic", "engine": "udp", "prop": "C08", "args": {"n": T(1200, 40000)}})
+PROPS["C13"]["jobs"].append({"name": "mtu-through-nat", "engine": "tcp", "prop": "C20", "args": {"n": T(600, 20000)}})
